@@ -760,12 +760,78 @@ def c19_job(job) -> List[Dict[str, Any]]:
     return out
 
 
+_CHECKER_DIGEST: List[Optional[str]] = [None]
+
+
+def _checker_digest() -> str:
+    """Digest of the analyser's own sources (a cached result is only valid for the analyser that produced it)."""
+    if _CHECKER_DIGEST[0] is None:
+        import hashlib
+        import os
+
+        h = hashlib.sha1()
+        root = os.path.dirname(os.path.dirname(os.path.abspath(__file__)))
+        for dp, dn, fn in sorted(os.walk(root)):
+            dn.sort()
+            for f in sorted(fn):
+                if f.endswith(".py"):
+                    with open(os.path.join(dp, f), "rb") as fh:
+                        h.update(f.encode())
+                        h.update(fh.read())
+        _CHECKER_DIGEST[0] = h.hexdigest()
+    return _CHECKER_DIGEST[0]
+
+
+def _cached(job_fn, job, repo_digest: str):
+    """Memo of one explicit-game job keyed by (analysed sources, analyser sources, job): several checks use the same closed-form /
+    cap / returns-normally job as counterpart of their structural rules. The memo is an optimisation only (a miss recomputes); it lives
+    outside /verif and /repo and can be disabled with OSV_NO_CACHE=1."""
+    import hashlib
+    import os
+    import pickle
+
+    if os.environ.get("OSV_NO_CACHE"):
+        return job_fn(job)
+    base = os.environ.get("OSV_CACHE_DIR") or os.path.join("/dev/shm" if os.path.isdir("/dev/shm") else "/tmp", f"osv-cache-{os.getuid()}")
+    # the rule id is the last string of the job for the shared jobs: results are stored without it
+    rule = next((x for x in reversed(job) if isinstance(x, str) and x.startswith("R")), None) if isinstance(job, tuple) else None
+    key_job = tuple(x for x in job if x != rule) if rule else job
+    key = hashlib.sha1(repr((job_fn.__module__, job_fn.__name__, key_job, repo_digest, _checker_digest())).encode()).hexdigest()
+    path = os.path.join(base, key + ".pkl")
+    try:
+        with open(path, "rb") as fh:
+            out = pickle.load(fh)
+    except Exception:  # noqa: BLE001
+        out = job_fn(job)
+        try:
+            os.makedirs(base, exist_ok=True)
+            tmp = path + f".{os.getpid()}.tmp"
+            with open(tmp, "wb") as fh:
+                pickle.dump(out, fh)
+            os.replace(tmp, path)
+        except Exception:  # noqa: BLE001
+            pass
+        return out
+    if rule:
+        out = [dict(d, rule=rule) for d in out]
+    return out
+
+
+class _CachedJob:
+    def __init__(self, fn, digest):
+        self.fn, self.digest = fn, digest
+
+    def __call__(self, job):
+        return _cached(self.fn, job, self.digest)
+
+
 def add_instances(rep, job_fn, jobs, rule: str, floor: int) -> None:
     """Run the explicit-game jobs on the process pool and add their instances to the report."""
     from ..report import Instance
     from .harness import parallel_map
 
-    for lst in parallel_map(job_fn, jobs):
+    digest = rep.extra.get("repo_digest") or Program().digest()
+    for lst in parallel_map(_CachedJob(job_fn, digest), jobs):
         for d in lst:
             rep.add(Instance(d["rule"], d["verdict"], d["module"], d["function"], d["construct"], d["line"], d.get("message", ""), d.get("detail", {})))
     rep.floor(rule, floor)
